@@ -11,3 +11,29 @@ Theorem C09_math_function_selected_for_operand_type :
   forall t name, In t scalar_types -> In name ufl_math_names -> entry_ok t name = true.
 Proof. apply table_ok_spec. vm_compute. reflexivity. Qed.
 Print Assumptions C09_math_function_selected_for_operand_type.
+
+(* sesquilinearity in the algebraic core: a conjugation around an argument-dependent subexpression is pushed onto the
+   factors only, because argument values (basis functions) are real.  Stated for every commutative ring with an
+   additive, multiplicative conjugation; instance of Fact.factorize_sound, tied to factorization.py by the exact
+   correspondence runs of harness/factcorr.py on the complex-mode integrands. *)
+From Coq Require Import List.
+From FFCX Require Import Fact.
+
+Theorem C09_conjugation_moves_to_the_factors :
+  forall (R : Type) (r0 r1 : R) (radd rmul rsub : R -> R -> R) (ropp rinv rconj : R -> R),
+    Ring_theory.ring_theory r0 r1 radd rmul rsub ropp eq ->
+    (forall x y, rconj (radd x y) = radd (rconj x) (rconj y)) ->
+    (forall x y, rconj (rmul x y) = rmul (rconj x) (rconj y)) ->
+    rconj r0 = r0 -> rconj r1 = r1 ->
+    forall (truth : R -> bool) (aval atom : nat -> R) (op1 : nat -> R -> R) (op2 : nat -> R -> R -> R),
+    (forall i, rconj (aval i) = aval i) ->
+    forall (argn : nat -> nat) (a : sx) (m : fac),
+      wf argn a -> factorize (XConj a) = Some m -> m <> nil ->
+      rconj (eval R r0 r1 radd rmul rinv rconj truth aval atom op1 op2 a) =
+      fsum R r0 r1 radd rmul rinv rconj truth aval atom op1 op2 m.
+Proof.
+  intros R r0 r1 radd rmul rsub ropp rinv rconj Rth ca cm c0 c1 truth aval atom op1 op2 areal argn a m W H Hne.
+  destruct (factorize_sound R r0 r1 radd rmul rsub ropp rinv rconj Rth ca cm c0 c1 truth aval atom op1 op2 areal argn (XConj a) m W H) as [_ E].
+  apply E. destruct m; [contradiction|reflexivity].
+Qed.
+Print Assumptions C09_conjugation_moves_to_the_factors.
